@@ -80,4 +80,103 @@ theorem parse_order_by_parts_partial (ids ids' : Nat → Nat) (hi : Inj ids) (hi
 example : orderByParts id [[.inl [66]], [.inl [65], .inl [67]]] =
     orderByParts (fun n => n + 3) [[.inl [66]], [.inl [65], .inl [67]]] := by decide
 
+/-! ## The lowering order is a strict total order on distinct module names -/
+
+/-- **lowering_order_total**: under the printed-name comparator no two modules with distinct names
+tie — exactly one of them comes first. -/
+theorem lowering_order_total (a b : List Nat) (h : a ≠ b) :
+    (lexLt a b = true ∧ lexLt b a = false) ∨ (lexLt b a = true ∧ lexLt a b = false) := by
+  cases hab : lexLt a b <;> cases hba : lexLt b a
+  · exact absurd (lexLt_total a b hab hba) h
+  · exact .inr ⟨rfl, rfl⟩
+  · exact .inl ⟨rfl, rfl⟩
+  · have := lexLt_trans a b a hab hba
+    rw [lexLt_irrefl] at this
+    cases this
+
+theorem sIns_eq_ins {α : Type} {lt : α → α → Bool} (h : StrictTotal lt) (x : α) (l : List α)
+    (hx : x ∉ l) : sIns lt x l = ins lt x l := by
+  induction l with
+  | nil => rfl
+  | cons y ys ih =>
+    simp only [List.mem_cons, not_or] at hx
+    simp only [sIns, ins]
+    by_cases h1 : lt x y = true
+    · simp [h1]
+    · have h2 : lt y x = true := by
+        cases h3 : lt y x with
+        | true => rfl
+        | false => exact absurd (h.total x y (by simpa using h1) h3) hx.1
+      simp [h1, h2, ih hx.2]
+
+theorem sSort_eq_ofList_aux {α : Type} {lt : α → α → Bool} (h : StrictTotal lt) :
+    ∀ (l acc : List α), l.Nodup → (∀ x ∈ l, x ∉ acc) →
+      l.foldl (fun acc x => sIns lt x acc) acc = l.foldl (fun acc x => ins lt x acc) acc := by
+  intro l
+  induction l with
+  | nil => intro acc _ _; rfl
+  | cons x xs ih =>
+    intro acc hn hd
+    have hn' := List.nodup_cons.mp hn
+    simp only [List.foldl_cons]
+    rw [sIns_eq_ins h x acc (hd x (by simp))]
+    apply ih _ hn'.2
+    intro y hy hmem
+    rcases (mem_ins x y acc h).mp hmem with rfl | hm
+    · exact hn'.1 hy
+    · exact hd y (List.mem_cons_of_mem _ hy) hm
+
+/-- **stable_sort_perm_invariant**: a stable sort by a strict total order of pairwise distinct keys
+gives the same sequence for every input (hash) order. -/
+theorem stable_sort_perm_invariant {α : Type} {lt : α → α → Bool} (h : StrictTotal lt)
+    (l l' : List α) (hn : l.Nodup) (hp : l'.Perm l) : sSort lt l' = sSort lt l := by
+  have hn' : l'.Nodup := hp.nodup_iff.mpr hn
+  have e1 : sSort lt l = ofList lt l := by
+    unfold sSort ofList merge
+    exact sSort_eq_ofList_aux h l [] hn (by simp)
+  have e2 : sSort lt l' = ofList lt l' := by
+    unfold sSort ofList merge
+    exact sSort_eq_ofList_aux h l' [] hn' (by simp)
+  rw [e1, e2]
+  exact sorted_enumeration_perm_invariant h l l' hp
+
+/-- the lowering order of the code: printed names, pairwise distinct, in any hash order -/
+theorem lowering_order_perm_invariant (names names' : List (List Nat)) (hn : names.Nodup)
+    (hp : names'.Perm names) : sSort lexLt names' = sSort lexLt names :=
+  stable_sort_perm_invariant lexLt_strictTotal names names' hn hp
+
+example : sSort lexLt [[65, 46, 66], [65]] = sSort lexLt [[65], [65, 46, 66]] := by decide
+
+/- Full-strength statement for the pairwise (`zip`, no length comparison) comparator, **false**:
+   `∀ a b, a ≠ b → zipLt a b = true ∨ zipLt b a = true`. -/
+
+/-- **zip_order_tie_counterexample** (class of seeded fault C12f): the module `App` (parts `[App]`)
+and the module `App.Tools` (parts `[App, Tools]`) are distinct and tie; a stable sort therefore keeps
+them in input (hash) order, and the two input orders give different lowering orders. -/
+theorem zip_order_tie_counterexample :
+    ∃ a b : List (List Nat), a ≠ b ∧ zipLt a b = false ∧ zipLt b a = false ∧
+      sSort zipLt [a, b] ≠ sSort zipLt [b, a] :=
+  ⟨[[65]], [[65], [66]], by decide, by decide, by decide, by decide⟩
+
+/-- **zip_order_partial**: the pairwise comparator only ties on prefix-related paths. -/
+theorem zip_order_partial (a b : List (List Nat)) (h1 : ¬ a <+: b) (h2 : ¬ b <+: a) :
+    zipLt a b = true ∨ zipLt b a = true := by
+  induction a generalizing b with
+  | nil => exact absurd (List.nil_prefix) h1
+  | cons p ps ih =>
+    cases b with
+    | nil => exact absurd (List.nil_prefix) h2
+    | cons q qs =>
+      simp only [zipLt]
+      cases hpq : lexLt p q
+      · cases hqp : lexLt q p
+        · have e : p = q := lexLt_total p q hpq hqp
+          subst e
+          simp only [lexLt_irrefl, Bool.false_eq_true, ↓reduceIte]
+          apply ih
+          · intro hpre; exact h1 ((List.cons_prefix_cons).mpr ⟨rfl, hpre⟩)
+          · intro hpre; exact h2 ((List.cons_prefix_cons).mpr ⟨rfl, hpre⟩)
+        · simp
+      · simp
+
 end SamVerif.ErrorSet
